@@ -165,6 +165,132 @@ theorem wrap360_spec (x : Rat) : 0 ≤ wrap360 x ∧ wrap360 x < 360 ∧ ∃ k :
   have b := (div_lt_iff₀ (by norm_num : (0:Rat) < 360)).mp h2
   refine ⟨by unfold wrap360; linarith, by unfold wrap360; linarith, pyFloor (x / 360), by unfold wrap360; ring⟩
 
+/-! ### data crossing the antimeridian -/
+
+theorem aux_foldmin (xs : List Rat) : ∀ (a : Rat),
+    xs.foldl (fun a b => if b < a then b else a) a ≤ a ∧
+    (∀ y ∈ xs, xs.foldl (fun a b => if b < a then b else a) a ≤ y) ∧
+    (xs.foldl (fun a b => if b < a then b else a) a = a ∨ xs.foldl (fun a b => if b < a then b else a) a ∈ xs) := by
+  induction xs with
+  | nil => intro a; simp
+  | cons x xs ih =>
+    intro a
+    simp only [List.foldl_cons]
+    obtain ⟨h1, h2, h3⟩ := ih (if x < a then x else a)
+    by_cases hx : x < a
+    · simp only [hx, if_true] at h1 h2 h3 ⊢
+      refine ⟨by linarith, ?_, ?_⟩
+      · intro y hy
+        rcases List.mem_cons.mp hy with rfl | hy
+        · exact h1
+        · exact h2 y hy
+      · rcases h3 with h | h
+        · right; rw [h]; exact List.mem_cons_self
+        · right; exact List.mem_cons_of_mem _ h
+    · simp only [hx, if_false] at h1 h2 h3 ⊢
+      refine ⟨h1, ?_, ?_⟩
+      · intro y hy
+        rcases List.mem_cons.mp hy with rfl | hy
+        · have : a ≤ y := not_lt.mp hx
+          linarith
+        · exact h2 y hy
+      · rcases h3 with h | h
+        · left; exact h
+        · right; exact List.mem_cons_of_mem _ h
+
+theorem aux_foldmax (xs : List Rat) : ∀ (a : Rat),
+    a ≤ xs.foldl (fun a b => if a < b then b else a) a ∧
+    (∀ y ∈ xs, y ≤ xs.foldl (fun a b => if a < b then b else a) a) ∧
+    (xs.foldl (fun a b => if a < b then b else a) a = a ∨ xs.foldl (fun a b => if a < b then b else a) a ∈ xs) := by
+  induction xs with
+  | nil => intro a; simp
+  | cons x xs ih =>
+    intro a
+    simp only [List.foldl_cons]
+    obtain ⟨h1, h2, h3⟩ := ih (if a < x then x else a)
+    by_cases hx : a < x
+    · simp only [hx, if_true] at h1 h2 h3 ⊢
+      refine ⟨by linarith, ?_, ?_⟩
+      · intro y hy
+        rcases List.mem_cons.mp hy with rfl | hy
+        · exact h1
+        · exact h2 y hy
+      · rcases h3 with h | h
+        · right; rw [h]; exact List.mem_cons_self
+        · right; exact List.mem_cons_of_mem _ h
+    · simp only [hx, if_false] at h1 h2 h3 ⊢
+      refine ⟨h1, ?_, ?_⟩
+      · intro y hy
+        rcases List.mem_cons.mp hy with rfl | hy
+        · have : y ≤ a := not_lt.mp hx
+          linarith
+        · exact h2 y hy
+      · rcases h3 with h | h
+        · left; exact h
+        · right; exact List.mem_cons_of_mem _ h
+
+theorem minL_spec (l : List Rat) (hne : l ≠ []) : (∀ y ∈ l, minL l ≤ y) ∧ minL l ∈ l := by
+  cases l with
+  | nil => exact absurd rfl hne
+  | cons x xs =>
+    obtain ⟨h1, h2, h3⟩ := aux_foldmin xs x
+    refine ⟨?_, ?_⟩
+    · intro y hy
+      rcases List.mem_cons.mp hy with rfl | hy
+      · exact h1
+      · exact h2 y hy
+    · show xs.foldl _ x ∈ x :: xs
+      rcases h3 with h | h
+      · rw [h]; exact List.mem_cons_self
+      · exact List.mem_cons_of_mem _ h
+
+theorem maxL_spec (l : List Rat) (hne : l ≠ []) : (∀ y ∈ l, y ≤ maxL l) ∧ maxL l ∈ l := by
+  cases l with
+  | nil => exact absurd rfl hne
+  | cons x xs =>
+    obtain ⟨h1, h2, h3⟩ := aux_foldmax xs x
+    refine ⟨?_, ?_⟩
+    · intro y hy
+      rcases List.mem_cons.mp hy with rfl | hy
+      · exact h1
+      · exact h2 y hy
+    · show xs.foldl _ x ∈ x :: xs
+      rcases h3 with h | h
+      · rw [h]; exact List.mem_cons_self
+      · exact List.mem_cons_of_mem _ h
+
+/-- every finite longitude, taken modulo 360 (and shifted with the CRS's prime meridian in `modify_crs` mode), lies within the new
+x corners, and both corners are attained by data points: the smallest area across the antimeridian that contains all the data -/
+theorem antimeridian_contains (xs : List (Option Rat)) (shift : Rat) (x : Rat) (hx : some x ∈ xs) :
+    (antimeridianXN xs shift).1 ≤ wrap360 x - shift ∧ wrap360 x - shift ≤ (antimeridianXN xs shift).2 ∧
+    (∃ a, some a ∈ xs ∧ (antimeridianXN xs shift).1 = wrap360 a - shift) ∧
+    (∃ b, some b ∈ xs ∧ (antimeridianXN xs shift).2 = wrap360 b - shift) := by
+  unfold antimeridianXN antimeridianX
+  have hmem : x ∈ xs.filterMap id := by
+    rw [List.mem_filterMap]; exact ⟨some x, hx, rfl⟩
+  have hw : wrap360 x ∈ (xs.filterMap id).map wrap360 := List.mem_map_of_mem hmem
+  have hne : (xs.filterMap id).map wrap360 ≠ [] := List.ne_nil_of_mem hw
+  obtain ⟨m1, m2⟩ := minL_spec _ hne
+  obtain ⟨M1, M2⟩ := maxL_spec _ hne
+  refine ⟨by have := m1 _ hw; simp only; linarith, by have := M1 _ hw; simp only; linarith, ?_, ?_⟩
+  · obtain ⟨a, ha, e⟩ := List.mem_map.mp m2
+    rw [List.mem_filterMap] at ha
+    obtain ⟨oa, hoa, e2⟩ := ha
+    refine ⟨a, ?_, by simp only; rw [← e]⟩
+    cases oa with
+    | none => simp at e2
+    | some v => simp at e2; rw [← e2]; exact hoa
+  · obtain ⟨b, hb, e⟩ := List.mem_map.mp M2
+    rw [List.mem_filterMap] at hb
+    obtain ⟨ob, hob, e2⟩ := hb
+    refine ⟨b, ?_, by simp only; rw [← e]⟩
+    cases ob with
+    | none => simp at e2
+    | some v => simp at e2; rw [← e2]; exact hob
+
+example : antimeridianXN [some 179, none, some (-179), some 180] 0 = (179, 181) := by decide +kernel
+example : antimeridianXN [some 179, none, some (-179), some 180] 180 = (-1, 1) := by decide +kernel
+
 /-! non-vacuity -/
 example : domainRes ⟨1/2, 1/2, 7/2, 5/2⟩ 1 1 = ⟨0, 0, 4, 3, 4, 3⟩ := by decide +kernel
 example : domainShape ⟨1/2, 1/2, 7/2, 5/2⟩ 3 4 = ⟨0, 0, 4, 3, 4, 3⟩ := by decide +kernel
